@@ -21,6 +21,9 @@ var S1 = []string{
 	// (U+0127 -> 0x27): a rune-to-byte truncation makes it look like the delimiter
 	"z", "Z", "\u0127",
 	"\xef\xbb\xbf", // UTF-8 byte-order mark: an input "normalisation" that strips it changes which string is judged
+	// every remaining byte the lexers compare individually (audited against the char literals of sqli*.go
+	// by tools/alphabet_audit.py): the other whitespace bytes, the upper-case float suffixes, the IF letters
+	"\t", "\v", "\f", "\r", "D", "F", "i", "I",
 }
 
 // S1core — the 30 most state-changing SQL bytes, for one level deeper.
@@ -63,6 +66,7 @@ var H1 = []string{
 	"z", "\u043d", "\u013c",
 	"\\", // not special in HTML: a change that starts treating it as an escape must be visible
 	"\xef\xbb\xbf", // UTF-8 byte-order mark
+	"A", "Z", "\v", "\f", "\r", // lower boundary / upper boundary of the upper-case range; the other HTML whitespace bytes
 }
 
 // H1core — 20 bytes for one level deeper.
